@@ -21,7 +21,7 @@ EXPLANATION += (  # round-3 supplement
     ' I7 declare_type looks earlier registrations up by TypeId alone, a hit is an error, the entry is added afterwards. I8 rust_type_to_roto_type maps each constructor to the Roto constructor of the same name with its components in order.'
 )
 EXPLANATION += (
-    ' I9 sibling agreement of the recursive registration passes: each descends into a module (or impl) with the scope looked up for it, never with the scope it was called with. I10 an import is registered only after the imported name was found (some function between Rt::declare_import and the insertion gates the onward call on a lookup of the same name). I11 a context type is stored only after every field type was found among the types of this runtime (discharges the unwrap in TypeChecker::declare_context). I12 name validation: the Ok exit of check_name_internal is decided by a comparison of the lexed token\'s span with the extent of the whole name. I13 a registered type cannot take a name that is already taken in its scope, including the names of the primitives (name lookup in Rt::declare_type decides the hand-over to the type checker; the primitive skip of declare_runtime_type is scope-local).'
+    ' I9 sibling agreement of the recursive registration passes: each descends into a module (or impl) with the scope looked up for it, never with the scope it was called with. I10 an import is registered only after the imported name was found (some function between Rt::declare_import and the insertion gates the onward call on a lookup of the same name). I11 a context type is stored only after every field type was found among the types of this runtime (discharges the unwrap in TypeChecker::declare_context). I12 name validation: the Ok exit of check_name_internal is decided by a comparison of the lexed token\'s span with the extent of the whole name. I13 a registered type cannot take a name that is already taken in its scope, including the names of the primitives (name lookup in Rt::declare_type decides the hand-over to the type checker; the primitive skip of declare_runtime_type is scope-local). I14 get_scope_of looks names up among the members of the given scope only.'
 )
 ASSUMPTIONS = [
     "crate-internal generic signatures (Function::new_generic, pub(crate) unsafe) are well-formed: parse_sig/evaluate_type_expr unwraps are reachable only from there",
@@ -695,6 +695,38 @@ def rule_i13(F):
     return r
 
 
+def rule_i14(F):
+    """Items are reachable at exactly the path where they were declared: every registration pass obtains the scope of a module or type
+    with TypeChecker::get_scope_of(scope, name), which must look the name up among the MEMBERS of that scope only.  A lookup that
+    also searches enclosing scopes and imports makes `use a::b::f` succeed when `b` is a sibling of `a` (and the outcome depend on
+    the order of the items)."""
+    r = RuleResult("C18.I14", "get_scope_of resolves a name among the members of the given scope only (no enclosing scopes, no imports)", floor=1)
+    ps = [p for p in F.paths() if p.endswith("TypeChecker::get_scope_of")]
+    if not ps:
+        r.missing("TypeChecker::get_scope_of")
+        return r
+    b = F.body(ps[0])
+    if not b.mir:
+        r.missing("MIR of get_scope_of")
+        return r
+    defs = mir.Defs(b)
+    rn = [(bi, t) for bi, t in mir.calls(b) if hir.last(mir.callee(t) or "") == "resolve_name" and len(t["args"]) == 4]
+    if not rn:
+        r.missing("the lookup in get_scope_of")
+    for bi, t in rn:
+        c = mir.op_const(t["args"][3])
+        val = c.get("v") if c is not None else None
+        if c is None and mir.is_place_op(t["args"][3]):
+            root, _p = mir.origin(b, defs, t["args"][3][1])
+            val = {"const:true": 1, "const:false": 0}.get(root, None)
+        r.inst("get_scope_of lookup", {"line": t.get("line"), "searches_enclosing_scopes": val not in (0, False)})
+        if val not in (0, False):
+            r.bad(b.path, "scope lookup searches enclosing scopes", relfile(b.file), t.get("line"),
+                  "get_scope_of looks the name up through enclosing scopes and imports: a `use` path resolves through a module that is not a member of the previous segment "
+                  "(`mod a {} mod b { fn f } use a::b::f;` registers)")
+    return r
+
+
 def rules(ctx):
     F = ctx["F"]
-    return [rule_i1(F), rule_i2(F), rule_i3(F), rule_i4(F), rule_i5(F), rule_i6(F), rule_i7(F), rule_i8(F), rule_i9(F), rule_i10(F), rule_i11(F), rule_i12(F), rule_i13(F)]
+    return [rule_i1(F), rule_i2(F), rule_i3(F), rule_i4(F), rule_i5(F), rule_i6(F), rule_i7(F), rule_i8(F), rule_i9(F), rule_i10(F), rule_i11(F), rule_i12(F), rule_i13(F), rule_i14(F)]
